@@ -1,7 +1,8 @@
 P = {
-    "gens": ["C18spray"],
+    "gens": ["C18spray", "C18sprayconc"],
     "theorems": ["C18_budget", "C18_accounting", "C18_giveback", "C18_reachable", "C18_giveback_concurrent",
-                 "C18_giveback_single", "C18_binary", "C18_binary_single_copy", "C18_binary_conservation"],
+                 "C18_giveback_single", "C18_binary", "C18_binary_single_copy", "C18_binary_conservation",
+                 "C18_gc_overlap_serial", "C18_gc_overlap_transparent"],
     "rule": "histories of {create (submit / receive with k copies, PreviousNodeBlock), sender up (link failing or not) / down, "
             "link starts / stops failing, retry tick, metadata GC} on a real routing.Core (spray, binary_spray) with scripted mock "
             "senders, 1..3 bundles per history replayed through independent per-bundle instances of the extracted model "
@@ -9,14 +10,23 @@ P = {
             "defects, L = 1..8 with six relays), concurrent-failure stress (six failing relays, repeated ticks; 'sync' histories "
             "delay every report inside its read-modify-write window), bounded-exhaustive histories over a 3-sender alphabet "
             "(quick: depth 3, L = 2; thorough: depth 4 for L = 1,3 and depth 5 for L = 2), random histories L = 1..8, 0..6 senders, "
-            "length 8..35; distinct = distinct case bodies (history + observations)",
+            "length 8..35; C18sprayconc: histories (hand-made for L = 2, 3, 5, 8 and random, both algorithms, bundles addressed to a node "
+            "that never is a peer) in which submit / peer-appeared / retry events are processed while the periodic metadata garbage "
+            "collection is in progress - made long by 800 metadata leftovers of bundles unknown to the store (hook "
+            "VerifSprayAddLeftovers), started before the event, from inside SenderForBundle (first GetPeerEndpointID call of the mock "
+            "sender: between reading the metadata and writing it back) or from inside the first Send (failure reports arrive while it "
+            "runs); same model replay (Model.spray_step_gc: either serial order) and property checkers after every event (relays "
+            "<= L-1, remaining + handed over = L, binary announced + kept = held, a pending bundle keeps its metadata), plus: exactly "
+            "the leftovers are gone from the metadata map; distinct = distinct case bodies (history + observations)",
     "assumptions": [
         "a bundle is created once (duplicates of a stored bundle never reach the algorithm: Core.receive drops them; "
         "re-submitting the same bundle re-initialises its budget and is outside the model)",
         "received bundles do not carry their own destination node in the PreviousNodeBlock (hist_wf); needed for the "
         "binary-spray and per-pass theorems, not for C18_budget / C18_accounting",
         "forwarding passes of one bundle do not overlap (the cron-fired checkPendingBundles racing the handler goroutine is "
-        "not modelled, DESIGN.md 1.2); within a pass the concurrent ReportFailure calls are modelled (C18_giveback_concurrent)",
+        "not modelled, DESIGN.md 1.2); within a pass the concurrent ReportFailure calls are modelled (C18_giveback_concurrent); "
+        "the garbage-collection cron job overlapping a pass / a submit is modelled as atomic (it holds the write lock throughout: "
+        "C18_gc_overlap_serial) and exercised on the real code by C18sprayconc",
     ],
     "trusted_base": [
         "Model/Spray.v as a description of algorithm_spray.go + Core.forward's use of it (tied by the differential check: "
@@ -24,6 +34,9 @@ P = {
         "hook, store membership, after every event)",
         "peer endpoint IDs are node-level, so == on peer EIDs and SameNode(destination) are both equality of node numbers",
         "sync.RWMutex gives mutual exclusion (the lock of the sub-step model)",
+        "hook pkg/routing/verif_export_spraygc.go: VerifSprayAddLeftovers (metadata entries of bundles the store does not know, as "
+        "expired bundles leave them behind) and VerifSprayMetaCount; the overlap of the collection with an event is produced by "
+        "schedule points in the harness's mock senders, not inside the unguarded code",
     ],
     "level_text": "Invariant proofs over the Gallina model for every budget L, every history and every oracle "
                   "(remaining + handed-over = L; structural invariant of the metadata; serialisability of two concurrent "
